@@ -246,17 +246,11 @@ func runC14(c *Checker) {
 		}
 		remainingFits, remainingFitsKnown := false, false
 		for _, f := range facts {
-			bo, ok := f.Cond.(*ssa.BinOp)
-			if !ok || (bo.Op != token.LEQ && bo.Op != token.GTR && bo.Op != token.LSS && bo.Op != token.GEQ) {
-				continue
-			}
-			if isRemaining(bo.X, data, off) && isLoadOfField(bo.Y, fMax) {
-				switch bo.Op {
-				case token.LEQ:
-					remainingFits, remainingFitsKnown = f.Val, true
-				case token.GTR:
-					remainingFits, remainingFitsKnown = !f.Val, true
-				}
+			switch factRel(f, func(v ssa.Value) bool { return isRemaining(v, data, off) }, func(v ssa.Value) bool { return isLoadOfField(v, fMax) }) {
+			case "<=":
+				remainingFits, remainingFitsKnown = true, true
+			case ">":
+				remainingFits, remainingFitsKnown = false, true
 			}
 		}
 		finalHere := storesConstTo(fa.X, fFinal, st.Block(), "true")
